@@ -41,7 +41,18 @@ func vC09(shape []int, complMask int) {
 			r = rr
 		}
 		if complMask&(1<<uint(ri)) != 0 {
-			r = r.Complement()
+			// complemented by hand (not through the code under test)
+			switch v := r.(type) {
+			case Segment:
+				r = Segment{v[1], v[0]}
+			case Regions:
+				rr := make(Regions, len(v))
+				for j := range v {
+					sg := v[len(v)-1-j].(Segment)
+					rr[j] = Segment{sg[1], sg[0]}
+				}
+				r = rr
+			}
 		}
 		in = append(in, r)
 	}
